@@ -385,6 +385,81 @@ def symbol_tables(model, R):
     R.soft(seq == want, 'LAYOUT', wk, wk.node, 'wiki-table layout: header cells with !!, one |- row per object with || cells', str(want), str(seq))
 
 
+def csv_rows_conserved(model, R):
+    """Every data row the csv reader yields reaches the row loop: on each path through ``Csv.loadf`` the rows read ahead
+    with ``next(reader)`` (after the header) are exactly the ones put back in front of the reader
+    (``itertools.chain([row, ...], reader)``), and nothing when none was read."""
+    lo = model.func('formats.csv_context.Csv.loadf')
+    readers = [s.targets[0].id for s in lo.body if isinstance(s, ast.Assign) and isinstance(s.targets[0], ast.Name)
+               and isinstance(s.value, ast.Call) and (chain(s.value.func) or [''])[-1] == 'reader']
+    if len(readers) != 1:
+        R.unknown('ROWS', lo, lo.node, 'csv loader: reader object', f'{len(readers)} csv.reader(...) bindings')
+        return
+    rd = readers[0]
+    results = []        # (path description, consumed names, rows expression or None)
+
+    def is_next(v):
+        return isinstance(v, ast.Call) and name_is(v.func, 'next') and v.args and name_is(v.args[0], rd)
+
+    def run(block, st, conds):
+        """st = dict(header=bool, ahead=[names], rows=expr)"""
+        for k, stmt in enumerate(block):
+            rest = block[k + 1:]
+            if isinstance(stmt, ast.Assign) and is_next(stmt.value):
+                if not st['header']:
+                    st = dict(st, header=True)
+                elif isinstance(stmt.targets[0], ast.Name):
+                    st = dict(st, ahead=st['ahead'] + [stmt.targets[0].id])
+                else:
+                    st = dict(st, ahead=st['ahead'] + ['<' + src(stmt.targets[0]) + '>'])
+                continue
+            if any(is_next(n) for n in ast.walk(stmt)) and not isinstance(stmt, (ast.If, ast.Try, ast.For, ast.While)):
+                st = dict(st, ahead=st['ahead'] + ['<discarded ' + src(stmt)[:30] + '>'])
+                continue
+            if isinstance(stmt, ast.Assign) and len(stmt.targets) == 1 and name_is(stmt.targets[0], 'rows'):
+                st = dict(st, rows=stmt.value)
+                continue
+            if isinstance(stmt, ast.If):
+                ok1 = run(list(stmt.body) + rest, st, conds + [src(stmt.test)])
+                ok2 = run(list(stmt.orelse) + rest, st, conds + ['not (' + src(stmt.test) + ')'])
+                return ok1 and ok2
+            if isinstance(stmt, (ast.Return, ast.Raise)):
+                if isinstance(stmt, ast.Return):
+                    results.append((conds, st, stmt))
+                return True
+            if isinstance(stmt, ast.For) and st['rows'] is not None and (name_is(stmt.iter, 'rows')):
+                results.append((conds, st, stmt))
+                return True
+            if isinstance(stmt, (ast.For, ast.While, ast.Try, ast.With)) and any(is_next(n) for n in ast.walk(stmt)):
+                return False
+            # statements of a loop / try that do not touch the reader: their inner raise/else structure does not change the rows
+        results.append((conds, st, None))
+        return True
+
+    if not run(list(lo.body), dict(header=False, ahead=[], rows=None), []):
+        R.unknown('ROWS', lo, lo.node, 'csv loader: rows read ahead', 'next(reader) inside a loop / try')
+        return
+    seen = 0
+    for conds, st, at in results:
+        if at is None or not isinstance(at, ast.For):
+            continue
+        seen += 1
+        rows = st['rows']
+        where = ' and '.join(conds) or 'always'
+        if st['ahead']:
+            ok = (isinstance(rows, ast.Call) and (chain(rows.func) or [''])[-1] == 'chain' and len(rows.args) == 2
+                  and isinstance(rows.args[0], (ast.List, ast.Tuple)) and [src(e) for e in rows.args[0].elts] == st['ahead'] and name_is(rows.args[1], rd))
+            want = f'itertools.chain([{", ".join(st["ahead"])}], {rd})'
+        else:
+            ok = name_is(rows, rd)
+            want = rd
+        R.decided(ok, 'ROWS', lo, at, f'csv loader: every data row reaches the row loop (path: {where[:80]})', f'rows = {want}',
+                  f'rows = {src(rows)} after reading ahead {st["ahead"] or "nothing"}',
+                  extra={'consequence': 'a row consumed by next(reader) and not chained back is lost: the first object of the file disappears'} if not ok else None)
+    if not seen:
+        R.unknown('ROWS', lo, lo.node, 'csv loader: row loop', 'no "for ... in rows" reached')
+
+
 def label_fidelity(model, R):
     """Labels pass through the csv loader and the python-literal writer untouched (these two formats promise to represent
     any printable text): the csv loader returns exactly the cells the reader produced, the literal writer emits each
@@ -494,4 +569,5 @@ def run(model, R):
     R.guard('SYMBOLS', None, 'symbol tables', symbol_tables, model, R)
     R.guard('INDEX-EXPORT', None, 'index exports', index_exports, model, R)
     R.guard('FIDELITY', None, 'label fidelity', label_fidelity, model, R)
+    R.guard('ROWS', None, 'csv rows', csv_rows_conserved, model, R)
     return __doc__.strip()
